@@ -165,7 +165,8 @@ type State struct {
 	depth    int
 	trace    []string
 	tag      string
-	guards   map[string]string
+	guards   map[string]guardDecl
+	guardOn  bool
 	assumeOK bool
 	blockedStreak int
 	runStack      []int
@@ -178,6 +179,11 @@ type State struct {
 	concreteClock   bool
 	noAutoFire      bool
 	appendHook      func(ex *Exec, st *State, newCap int)
+}
+
+type guardDecl struct {
+	mu   string // mutex key, or "atomic"
+	name string
 }
 
 type Failure struct {
